@@ -70,6 +70,9 @@ def stage(nseeds):
     os.makedirs("/verif/target", exist_ok=True)
     os.makedirs("/verif/replays", exist_ok=True)
     scen = dict(SCENARIOS)
+    if os.environ.get("VERIF_MIRI_SLOW") == "1":
+        # about 15 minutes for up to 16 seeds: general-category sets are built under Miri
+        scen["S8"] = "concurrent compilation of patterns with different general-category escapes (slow; opt-in)"
     ngen = int(os.environ.get("VERIF_MIRI_GENERATED", "24"))
     for k in range(ngen):
         scen[f"G:{base % 1000 + k}"] = "generated mini-script (pattern, 2-3 threads, 1-2 operations each, derived from the integer)"
